@@ -25,6 +25,15 @@ def current():
     for l in open(os.path.join(V, "properties.jsonl")):
         p = json.loads(l)
         out[p["id"]] = {f: fp(os.path.join("/repo", f)) for f in p["anchors"]["files"] if f.startswith("simfile/")}
+    # every source file of the package (tests aside): a property often depends on helper modules outside its anchor files
+    allf = {}
+    for root, dirs, files in os.walk("/repo/simfile"):
+        dirs[:] = [d for d in dirs if d not in ("tests", "__pycache__")]
+        for fn in files:
+            if fn.endswith(".py"):
+                rel = os.path.relpath(os.path.join(root, fn), "/repo")
+                allf[rel] = fp(os.path.join(root, fn))
+    out["_all"] = allf
     return out
 
 
